@@ -15,4 +15,18 @@ theorem get_set (s : FS) (i j : Nat) (x : Inode) :
 @[simp] theorem set_unstable (s : FS) (i : Nat) (x : Inode) : (s.set i x).unstable = s.unstable := rfl
 @[simp] theorem set_wtmax (s : FS) (i : Nat) (x : Inode) : (s.set i x).wtmax = s.wtmax := rfl
 
+theorem readBytes_write (rest : List Ext) (off : Nat) (d : Array UInt8) :
+    readBytes (.write off d :: rest) off d.size = d.toList := by
+  apply List.ext_getElem
+  · simp [readBytes]
+  · intro k h1 h2
+    simp [readBytes] at h1 ⊢
+    simp [byteAt, h1]
+
+theorem resolve_set_same (s : FS) (fh : Bytes) (i : Nat) (x : Inode) (h : resolve s fh = some i)
+    (hk : x.kind = (s.get i).kind) (hg : x.gen = (s.get i).gen) : resolve (s.set i x) fh = some i := by
+  unfold resolve at *
+  simp only [FS.get, FS.set] at *
+  grind
+
 end GoNfsd.Model.Fs
